@@ -22,6 +22,8 @@ pub struct Log {
     pub rets: Vec<J>,
     /// subscription deliveries (observer, token, kind, value, read-at-that-moment)
     pub dlv: Vec<(usize, i64, String, J, J)>,
+    /// invocations of the function underlying a weak_memoize_fn (memo id, key)
+    pub memo: Vec<(usize, J)>,
 }
 
 #[derive(Default)]
@@ -35,10 +37,13 @@ pub struct Tables {
     pub in_stabilise: bool,
 }
 
+pub type MemoFn = Box<dyn FnMut(i64) -> Incr<Val>>;
+
 #[derive(Clone)]
 pub struct Ctx {
     pub tables: Weak<RefCell<Tables>>,
     pub ws: WeakState,
+    pub memos: Rc<RefCell<Vec<MemoFn>>>,
 }
 
 #[derive(Debug, Clone)]
@@ -134,7 +139,7 @@ impl Ctx {
                 }
                 "panic" => {
                     if e["at"].is_null() || e["at"].as_i64() == Some(run_no) {
-                        panic!("harness: injected user panic");
+                        panic!("injected user panic");
                     }
                 }
                 other => panic!("harness: unknown effect {other}"),
@@ -157,19 +162,24 @@ impl Ctx {
     }
 
     /// Incr::bind with a recipe; returns the main node. ids: lhs_change = id, main = id + 1.
+    /// The closure owns clones of the handles of every node the recipe names (as real code would).
     fn make_bind(&self, lhs: &Incr<Val>, recipe: J, id: usize) -> Incr<Val> {
         let ctx = self.clone();
+        let mut ids = vec![];
+        recipe_refs(&recipe, &mut ids);
+        let captured: HashMap<usize, Incr<Val>> = ids.into_iter().map(|i| (i, self.node(i))).collect();
         lhs.bind(move |v: &Val| {
             ctx.with(|t| t.log.inv.push((id, vec![v.to_json()])));
-            ctx.run_recipe(&recipe, v)
+            ctx.run_recipe(&recipe, v, &captured)
         })
     }
 
-    pub fn run_recipe(&self, rc: &J, v: &Val) -> Incr<Val> {
+    pub fn run_recipe(&self, rc: &J, v: &Val, cap: &HashMap<usize, Incr<Val>>) -> Incr<Val> {
+        let node = |id: usize| cap.get(&id).cloned().unwrap_or_else(|| self.node(id));
         match rc["r"].as_str().unwrap_or("") {
             "pick" => {
                 let ix = v.int() as usize;
-                self.node(rc["alts"][ix].as_u64().unwrap() as usize)
+                node(rc["alts"][ix].as_u64().unwrap() as usize)
             }
             "const" => {
                 let id = self.next_id();
@@ -179,14 +189,14 @@ impl Ctx {
             }
             "map" => {
                 let id = self.next_id();
-                let over = self.node(rc["over"].as_u64().unwrap() as usize);
+                let over = node(rc["over"].as_u64().unwrap() as usize);
                 let n = self.make_map(rc["f"].as_str().unwrap().to_string(), Some(v.clone()), &over, vec![], id);
                 self.push_node(id, None);
                 n
             }
             "chain" => {
                 let len = rc["len"].as_u64().unwrap();
-                let mut prev = self.node(rc["over"].as_u64().unwrap() as usize);
+                let mut prev = node(rc["over"].as_u64().unwrap() as usize);
                 for i in 1..=len {
                     let id = self.next_id();
                     let (f, cap) = if i == 1 {
@@ -199,26 +209,71 @@ impl Ctx {
                 }
                 prev
             }
-            "alt" => self.run_recipe(&rc["alts"][v.int() as usize], v),
+            "alt" => self.run_recipe(&rc["alts"][v.int() as usize], v, cap),
             "bind" => {
                 let id = self.next_id();
-                let over = self.node(rc["over"].as_u64().unwrap() as usize);
-                let n = self.make_bind(&over, rc["inner"].clone(), id);
+                let over = node(rc["over"].as_u64().unwrap() as usize);
+                let n = self.make_bind_captured(&over, rc["inner"].clone(), id, cap.clone());
                 self.push_node(id + 1, None);
                 n
             }
             "junk" => {
-                let j = self.run_recipe(&rc["pre"], v);
+                let j = self.run_recipe(&rc["pre"], v, cap);
                 drop(j);
-                self.run_recipe(&rc["then"], v)
+                self.run_recipe(&rc["then"], v, cap)
+            }
+            "ref" => match v {
+                Val::N(n) => n.clone(),
+                _ => panic!("harness: ref recipe on a non-node value"),
+            },
+            "foreign" => {
+                // a node of another state (C19): the engine must refuse it
+                let other = IncrState::new();
+                let n = other.constant(v.clone());
+                std::mem::forget(other);
+                n
+            }
+            "memo" => {
+                let m = rc["m"].as_u64().unwrap() as usize;
+                let mut memos = self.memos.borrow_mut();
+                (memos[m - 1])(v.int())
             }
             "leak" => {
-                let n = self.run_recipe(&rc["then"], v);
+                let n = self.run_recipe(&rc["then"], v, cap);
                 self.with(|t| t.leaked.push(n.clone()));
                 n
             }
             other => panic!("harness: unknown recipe {other}"),
         }
+    }
+}
+
+impl Ctx {
+    fn make_bind_captured(&self, lhs: &Incr<Val>, recipe: J, id: usize, captured: HashMap<usize, Incr<Val>>) -> Incr<Val> {
+        let ctx = self.clone();
+        lhs.bind(move |v: &Val| {
+            ctx.with(|t| t.log.inv.push((id, vec![v.to_json()])));
+            ctx.run_recipe(&recipe, v, &captured)
+        })
+    }
+}
+
+/// ids of the nodes a recipe names
+fn recipe_refs(rc: &J, out: &mut Vec<usize>) {
+    match rc["r"].as_str().unwrap_or("") {
+        "pick" => out.extend(rc["alts"].as_array().unwrap().iter().map(|x| x.as_u64().unwrap() as usize)),
+        "map" | "chain" => out.push(rc["over"].as_u64().unwrap() as usize),
+        "alt" => rc["alts"].as_array().unwrap().iter().for_each(|r| recipe_refs(r, out)),
+        "bind" => {
+            out.push(rc["over"].as_u64().unwrap() as usize);
+            recipe_refs(&rc["inner"], out);
+        }
+        "junk" => {
+            recipe_refs(&rc["pre"], out);
+            recipe_refs(&rc["then"], out);
+        }
+        "leak" => recipe_refs(&rc["then"], out),
+        _ => {}
     }
 }
 
@@ -277,7 +332,7 @@ impl Session {
             None => IncrState::new(),
         };
         let t = Rc::new(RefCell::new(Tables::default()));
-        let ctx = Ctx { tables: Rc::downgrade(&t), ws: state.weak() };
+        let ctx = Ctx { tables: Rc::downgrade(&t), ws: state.weak(), memos: Rc::new(RefCell::new(vec![])) };
         Session { state: Some(state), t, ctx, trace: vec![], record: false }
     }
 
@@ -592,6 +647,7 @@ impl Session {
                     t.log.cut.clear();
                     t.log.reads.clear();
                     t.log.dlv.clear();
+                    t.log.memo.clear();
                 }
                 self.st().stabilise();
             }
@@ -602,8 +658,29 @@ impl Session {
             }
             "drop_var" => {
                 let id = a["n"].as_u64().unwrap() as usize;
+                // the public Var and the harness's handle to its watch node
+                let w = self.t.borrow_mut().nodes[id - 1].take();
                 let h = self.t.borrow_mut().vars.remove(&id);
+                drop(w);
                 drop(h);
+            }
+            "memo_new" => {
+                let m = ctx.memos.borrow().len() + 1;
+                let f = a["f"].as_str().unwrap().to_string();
+                let over = a["over"].as_u64().filter(|x| *x > 0).map(|x| self.node(x as usize));
+                // builder context must not own the memo table itself (it is stored in there)
+                let c2 = Ctx { tables: ctx.tables.clone(), ws: ctx.ws.clone(), memos: Rc::new(RefCell::new(vec![])) };
+                let memo = self.st().weak_memoize_fn(move |key: i64| {
+                    c2.with(|t| t.log.memo.push((m, json!(["i", key, 0]))));
+                    let id = c2.next_id();
+                    let n = match &over {
+                        None => c2.ws.constant(Val::I(key)),
+                        Some(o) => c2.make_map(f.clone(), Some(Val::I(key)), o, vec![], id),
+                    };
+                    c2.push_node(id, None);
+                    n
+                });
+                ctx.memos.borrow_mut().push(Box::new(memo));
             }
             "set_max_height" => {
                 self.st().set_max_height_allowed(a["h"].as_u64().unwrap() as usize);
@@ -694,6 +771,31 @@ impl Session {
                 }
             }
         }
+        // C12: exactly the unreferenced nodes have been released
+        if let (Some(want), Some(st)) = (e["released"].as_array(), self.state.as_ref()) {
+            if let Ok(snap) = serde_json::from_str::<J>(&st.verif_snapshot()) {
+                if let Some(nodes) = snap["nodes"].as_array() {
+                    for (i, n) in nodes.iter().enumerate() {
+                        let got = n["kind"] == "released";
+                        let w = want.get(i).and_then(|b| b.as_bool()).unwrap_or(got);
+                        if got != w {
+                            let what = if w {
+                                format!("node {} is still alive although nothing references it", i + 1)
+                            } else {
+                                format!("node {} was released although it is still referenced", i + 1)
+                            };
+                            out.push(Mismatch { prop: "C12", step, what });
+                        }
+                    }
+                }
+            }
+        }
+        if let Some(want) = e["memo"].as_array() {
+            let got: Vec<J> = t.log.memo.iter().map(|(m, k)| json!({"m": m, "key": k})).collect();
+            if &got != want {
+                out.push(Mismatch { prop: "C20", step, what: format!("memoised builder invocations {got:?} expected {want:?}") });
+            }
+        }
         if let Some(want) = e["inreads"].as_array() {
             let got: Vec<J> = t.log.reads.iter().map(|(o, r)| json!({"o": o, "r": r})).collect();
             if &got != want {
@@ -730,6 +832,7 @@ pub fn run_behaviour(hist: &[J], max_height: Option<usize>) -> Vec<Mismatch> {
     let mut s = Session::new(max_height);
     let mut out = vec![];
     let mut poisoned = false;
+    let mut user_panic = false;
     for (i, a) in hist.iter().enumerate() {
         if a["a"] == "expect" {
             out.extend(s.check_expect(a, i));
@@ -758,6 +861,7 @@ pub fn run_behaviour(hist: &[J], max_height: Option<usize>) -> Vec<Mismatch> {
                         out.push(Mismatch { prop: "C19", step: i, what: format!("panic does not name the cause ({want}): {msg}") });
                     }
                     poisoned = true;
+                    user_panic = want == "user";
                 }
                 _ => {
                     out.push(Mismatch { prop: if poisoned { "C13" } else { "C04" }, step: i, what: format!("action {a} panicked: {msg}") });
@@ -774,7 +878,9 @@ pub fn run_behaviour(hist: &[J], max_height: Option<usize>) -> Vec<Mismatch> {
     // dropping everything must not panic either
     let r = catch_unwind(AssertUnwindSafe(move || drop(s)));
     if let Err(p) = r {
-        out.push(Mismatch { prop: "C12", step: hist.len(), what: format!("drop panicked: {}", panic_msg(p)) });
+        // after a caught panic this is C13 (user function) / C19 (misuse or limit), otherwise C12
+        let prop = if !poisoned { "C12" } else if user_panic { "C13" } else { "C19" };
+        out.push(Mismatch { prop, step: hist.len(), what: format!("drop panicked after {}: {}", if poisoned { "a caught panic" } else { "a clean run" }, panic_msg(p)) });
     }
     out
 }
@@ -899,6 +1005,7 @@ impl Session {
             .map(|(o, tk, k, v, rd)| json!({"o": o, "t": tk, "u": k, "v": v, "rd": rd}))
             .collect();
         let cut: Vec<J> = t.log.cut.iter().map(|(n, o, w)| json!({"n": n, "old": o, "new": w})).collect();
+        let memo: Vec<J> = t.log.memo.iter().map(|(m, k)| json!({"m": m, "key": k})).collect();
         let inreads: Vec<J> = t.log.reads.iter().map(|(o, r)| json!({"o": o, "r": r})).collect();
         let mut snap = match &self.state {
             Some(s) => reshape_snapshot(&s.verif_snapshot()),
@@ -909,7 +1016,7 @@ impl Session {
         let pclass = panic_class(panic);
         json!({
             "panic": panic, "pclass": pclass, "reads": reads, "cells": cells, "inv": inv, "dlv": dlv, "cut": cut,
-            "inreads": inreads, "rets": t.log.rets.clone(),
+            "inreads": inreads, "memo": memo, "rets": t.log.rets.clone(),
             "stable": self.state.as_ref().map_or(true, |s| s.is_stable()),
             "snap": snap,
         })
@@ -923,6 +1030,7 @@ pub fn record_script(script: &[J], max_height: Option<usize>, run: usize, out: &
     let mut s = Session::new(max_height);
     out.push(json!({"a": "reset", "maxh": max_height.unwrap_or(128), "run": run}).to_string());
     let mut panicked = false;
+    let mut user_panic = false;
     for a in script {
         if a["a"] == "expect" {
             continue;
@@ -936,8 +1044,9 @@ pub fn record_script(script: &[J], max_height: Option<usize>, run: usize, out: &
         line["run"] = json!(run);
         line["obs"] = s.observations(&msg);
         out.push(line.to_string());
-        if r.is_err() {
+        if let Err(m) = &r {
             panicked = true;
+            user_panic = user_panic || panic_class(m) == "user";
         }
     }
     let d = catch_unwind(AssertUnwindSafe(move || drop(s)));
@@ -945,5 +1054,5 @@ pub fn record_script(script: &[J], max_height: Option<usize>, run: usize, out: &
         Ok(()) => String::new(),
         Err(p) => panic_msg(p),
     };
-    out.push(json!({"a": "drop_all", "run": run, "after_panic": panicked, "obs": {"panic": msg}}).to_string());
+    out.push(json!({"a": "drop_all", "run": run, "after_panic": panicked, "user_panic": user_panic, "obs": {"panic": msg}}).to_string());
 }
